@@ -179,7 +179,7 @@ def run(tape, kind):
     out = Outcome()
     elfi = sr.reset_process_state(tape)
     sp.clear_registry()
-    spec = sp.gen_inference_spec(tape, disc_kinds=('disc', 'dist'), ties=False)
+    spec = sp.gen_inference_spec(tape, disc_kinds=('disc', 'dist'), ties=False, far=True)
     d = [n for n in spec['nodes'] if n['name'] == 'd'][0]
     if d['kind'] == 'disc' and tape.chance('lattice', 1, 3):
         d['cfg']['lattice'] = tape.choice('lattice_n', [5, 10]) if spec['mode'] == 'mix' \
